@@ -183,9 +183,33 @@ def count_theorems(rel_v):
     return re.findall(r"^\s*(?:Theorem|Lemma|Corollary)\s+([A-Za-z0-9_']+)", txt, flags=re.M)
 
 
-def forbidden_scan():
-    hits = []
+def coq_closure(rel_files):
+    """source files (relative to COQ) reachable from rel_files through Require of Goloop/GoloopRun modules"""
+    by_base = {}
     for rel in coq_sources():
+        by_base.setdefault(os.path.basename(rel)[:-2], []).append(rel)
+    seen, todo = set(), [r for r in rel_files if os.path.exists(os.path.join(COQ, r))]
+    while todo:
+        rel = todo.pop()
+        if rel in seen:
+            continue
+        seen.add(rel)
+        txt = open(os.path.join(COQ, rel)).read()
+        txt = re.sub(r"\(\*.*?\*\)", " ", txt, flags=re.S)
+        for m in re.finditer(r"\bRequire\s+(?:Import\s+|Export\s+)?([^.]*?(?:\.[A-Za-z_][^.]*?)*)\.\s", txt):
+            for tok in m.group(1).split():
+                base = tok.split(".")[-1]
+                for cand in by_base.get(base, []):
+                    if cand not in seen:
+                        todo.append(cand)
+    return sorted(seen)
+
+
+def forbidden_scan(rel_files=None):
+    """grep the property's dependency closure (or the whole tree) for forbidden vernacular"""
+    hits = []
+    files = coq_closure(rel_files) if rel_files else coq_sources()
+    for rel in files:
         txt = open(os.path.join(COQ, rel)).read()
         stripped = re.sub(r"\(\*.*?\*\)", lambda m: " " * len(m.group(0)), txt, flags=re.S)
         for m in re.finditer(FORBIDDEN, stripped):
